@@ -739,6 +739,12 @@ func entryToAttr(ino uint64, e metadata.Attr, out *fuse.Attr) fusefs.StableAttr 
 	out.Blksize = blockSize
 	out.Blocks = (out.Size + uint64(out.Blksize) - 1) / uint64(out.Blksize) * physicalBlockRatio
 	mtime := e.ModTime
+	if mtime.IsZero() {
+		// The TOC omits the modtime of an entry whose tar mtime is the Unix epoch (or
+		// unset), which is read back as the zero time.Time (year 1). Its Unix time is
+		// negative and would be served as a huge unsigned value.
+		mtime = time.Unix(0, 0)
+	}
 	out.SetTimes(nil, &mtime, nil)
 	out.Mode = fileModeToSystemMode(e.Mode)
 	out.Owner = fuse.Owner{Uid: uint32(e.UID), Gid: uint32(e.GID)}
@@ -765,6 +771,12 @@ func entryToWhAttr(ino uint64, e metadata.Attr, out *fuse.Attr) fusefs.StableAtt
 	out.Blksize = blockSize
 	out.Blocks = 0
 	mtime := e.ModTime
+	if mtime.IsZero() {
+		// The TOC omits the modtime of an entry whose tar mtime is the Unix epoch (or
+		// unset), which is read back as the zero time.Time (year 1). Its Unix time is
+		// negative and would be served as a huge unsigned value.
+		mtime = time.Unix(0, 0)
+	}
 	out.SetTimes(nil, &mtime, nil)
 	out.Mode = syscall.S_IFCHR
 	out.Owner = fuse.Owner{Uid: 0, Gid: 0}
